@@ -66,7 +66,7 @@ def handle (line : String) : String :=
     | some ep, some target, some (files, man) =>
       let bad : XmlMember := ⟨decl == "1", ext == "1"⟩
       let p : Pkg := { files := files.map (fun f => (f, if f == target then bad else XmlMember.clean)), manifest := man }
-      match read observed ep p with
+      match read observed Prep.id ep p with
       | .error e => "err " ++ showErr e
       | .ok os => if os.any (·.expanded) then "ok expanded" else "ok clean"
     | _, _, _ => "err bad-arg"
